@@ -1357,6 +1357,8 @@ def _symbolic_keys_to_tuples(
         The tuple keys of ``new_hamiltonian`` are ordered according to this list.
 
     """
+    # The key of the unperturbed Hamiltonian may be the Python integer 1.
+    hamiltonian = {sympy.sympify(key): value for key, value in hamiltonian.items()}
     if symbols:
         symbols = tuple(symbols)
     else:
